@@ -131,7 +131,7 @@ def gen_cases(ctx, n):
                 rows, cols = rng.randrange(w - 2, w + 3), rng.randrange(1, w + 1)
             rows, cols = max(rows, 1), max(cols, 1)
             small = mu.gen_case(rng, measure=m, window=w, subpix=c["subpix"], max_nd=12)
-            small.update(rows=rows, cols=cols, grids=None, mask_l=None, mask_r=None, bands=None, band=None,
+            small.update(rows=rows, cols=cols, grids=None, mask_l=None, mask_r=None, bands=None, band=None, perm_r=None,
                          left=[mu.gen_image(rng, rows, cols, 50, "rand")],
                          right=[mu.gen_image(rng, rows, cols, 50, "rand")])
             small["disp"] = [max(small["disp"][0], -3), min(max(small["disp"][1], -3), 3)]
